@@ -68,6 +68,7 @@ loop:
 			// We reached the end of the array
 			last = chunksNum - 1
 		}
+		verifYield("verifyindex.feeder")
 		select {
 		case <-ctx.Done():
 			interrupted = true
